@@ -219,3 +219,12 @@ def run(res, facts, tier):
     _run_c01_prev_copyattr(res, facts, tier)
     from . import c01_copyns
     c01_copyns.run_attr_rule(res, facts, tier)
+
+
+_run_c01_prev_count = run
+
+
+def run(res, facts, tier):
+    _run_c01_prev_count(res, facts, tier)
+    from . import c01_count
+    c01_count.run_rule(res, facts, tier)
